@@ -48,7 +48,15 @@ func importLogs(w http.ResponseWriter, r *http.Request) {
 				api.NoContent(w)
 				return
 			} else {
-				common.InternalServerError(w, r, fmt.Errorf("reading input stream: %w", err))
+				// The stream cannot be decoded further. Release the import goroutine (it
+				// ranges over the stream while holding the ledger lock) and wait for it
+				// before answering.
+				close(stream)
+				if importErr := <-errChan; importErr != nil {
+					handleError(importErr)
+					return
+				}
+				api.BadRequest(w, common.ErrValidation, fmt.Errorf("reading input stream: %w", err))
 				return
 			}
 		}
@@ -56,6 +64,7 @@ func importLogs(w http.ResponseWriter, r *http.Request) {
 		select {
 		case stream <- l:
 		case <-r.Context().Done():
+			close(stream)
 			common.InternalServerError(w, r, fmt.Errorf("request context done: %w", r.Context().Err()))
 			return
 		case err := <-errChan:
